@@ -60,6 +60,9 @@ static int inv_is_canonical_ipv4(const uint8_t* h, uint32_t n) {
 /* end of the path component */
 static uint32_t inv_path_end(const struct st* s) { return SS(s) != OMIT ? SS(s) : HH(s) != OMIT ? HH(s) : s->L; }
 
+/* inv_relax_path: set by the harness of internal editors that legitimately leave the path empty in between
+ * (clear_pathname is always followed by parse_path); every other rule of INV still applies */
+static int inv_relax_path = 0;
 static int INV(const struct st* s) {
   const uint32_t L = s->L, P = PE(s);
   if (L > BN) return 0;
@@ -166,7 +169,7 @@ static int INV(const struct st* s) {
     if (pend > PS(s) && s->buf[PS(s)] == '/') return 0;       /* an opaque path does not start with '/' */
   } else {
     if (pend > PS(s) && s->buf[PS(s)] != '/') return 0;
-    if (inv_is_special(s->type) && pend == PS(s)) return 0;   /* special: path is never empty */
+    if (inv_is_special(s->type) && pend == PS(s) && !inv_relax_path) return 0;   /* special: path is never empty */
   }
   return 1;
 }
